@@ -12,7 +12,7 @@ def claim(id, cat, technique, text, note, design):
 SIM = "deterministic simulation with fault injection: real driver code against a seeded reference device, instrumented platform layer and workload generator; one seed = one replayable run; seeded search over histories, schedules and faults"
 
 claim("C01", "exploration", SIM + "; oracle = device-side chain walk at every publication",
-      "Seeded search over submission/completion histories on the real VirtQueue (all power-of-two sizes, direct/indirect, event-idx, access-platform, legacy/modern, device policy per run); every published chain is walked by an independent reference device and compared with the caller's buffers as device addresses. Sampling, not proof.",
+      "Seeded search over submission/completion histories on the real VirtQueue (all power-of-two sizes, direct/indirect, event-idx, access-platform, legacy/modern, device policy per run); every published chain is walked by an independent reference device and compared with the caller's buffers as device addresses; a borrowed batch runs every driver x transport x feature set (C08's grid) judged for chain/descriptor-ownership classes only, so that queue flags wired wrongly by a driver are seen. Sampling, not proof.",
       "Trusts the reference device core (sim/src/vq.rs), SimHal and the store hooks' placement; sequentially consistent memory at hook granularity.", "6/C01")
 claim("C02", "exploration", SIM + "; observer validates all entries below avail.idx at every driver store",
       "At every store to device-visible queue memory (guarded hook) an observer reads the available index from memory and validates every entry below it; additional monitors: no store after the index store of a submission, no rewrite of an in-flight descriptor or unread ring slot. Sampling of histories; the store points inside each history are all visited.",
@@ -21,10 +21,10 @@ claim("C03", "exploration", SIM + "; lock-step reference model of outstanding ch
       "Reference model checked after every operation (accept/refuse decisions, error values, side-effect freedom of failed polls, byte counts, available_desc, fill-to-capacity probes); dedicated runs exceed 65536 submissions so all 16-bit indices wrap with chains outstanding.",
       "Sampling of histories; completion order chosen by the seeded scheduler.", "6/C03")
 claim("C04", "exploration", SIM + "; online ledger invariants of a bouncing platform layer",
-      "SimHal bounces every buffer to a fresh device address and checks share/unshare pairing, arguments, direction and the returned device address online; the device model can only touch live shares/DMA in the permitted direction; caller-visible data is checked at consumption.",
+      "SimHal bounces every buffer to a fresh device address and checks share/unshare pairing, arguments, direction and the returned device address online; the device model can only touch live shares/DMA in the permitted direction; caller-visible data is checked at consumption; borrowed driver-level batches (block, sound, GPU scenarios) are judged for the sharing-ledger classes only, plus: after every blocking request completed and the driver was dropped no request buffer is still shared.",
       "Platform always bounces; sampling of histories.", "6/C04")
 claim("C05", "exploration", SIM + "; notification predicate vs vring_need_event, device-side suppression state, busy-wait supervision for lost wake-ups",
-      "should_notify is compared with the specification predicate after batches of up to SIZE submissions including across the 16-bit wrap; avail.flags/used_event are read from the device side; blocking helpers run against notify-only / polling / delaying devices with a supervisor that turns a wait that can never end into a violation.",
+      "should_notify is compared with the specification predicate after batches of up to SIZE submissions including across the 16-bit wrap; avail.flags/used_event are read from the device side; blocking helpers run against notify-only / polling / delaying devices with a supervisor that turns a wait that can never end into a violation; a borrowed batch runs C08's driver grid judged for the notification classes only (used_event re-armed on every request queue, no lost wake-up at call boundaries).",
       "Liveness bound of 4 idle device opportunities; interrupts are not asynchronous control flow (library installs no handlers).", "6/C05")
 
 claim("C06", "exploration", SIM + "; configuration grid enumerated completely inside the simulated world, seam-history oracle",
@@ -34,7 +34,7 @@ claim("C10", "exploration", SIM + "; register-level reference device behind the 
       "Real MmioTransport/SomeTransport over a register-level virtio-mmio reference device (legacy and modern) through safe-mmio's custom-mmio seam: every access is checked for width, alignment, direction, version and ordering; per operation the ordered trace is compared with the specification's prescription; random headers at probe time.",
       "Register table transcribed from VirtIO 1.2 4.2.2/4.2.4; sampling of operation sequences and arguments.", "6/C10")
 claim("C14", "exploration", SIM + "; reference block device with sparse disk, out-of-order completion, per-request status faults",
-      "VirtIOBlk over model/MMIO/PCI transports against a reference block device that checks the shape of every request; blocking and non-blocking API with several requests outstanding completed in scheduler-chosen order; status mapping, data integrity, capacity/RO/FLUSH negotiation.",
+      "VirtIOBlk over model/MMIO/PCI transports against a reference block device that checks the shape of every request; blocking and non-blocking API with several requests outstanding completed in scheduler-chosen order; status mapping, data integrity, capacity/RO/FLUSH negotiation; capacity read under a device that changes its configuration during construction (C13's torn-read scenario for the block device).",
       "Blocking calls only with nothing else outstanding; sampling of histories.", "6/C14")
 
 claim("C15", "exploration", SIM + "; reference console owning a position-identifying byte stream, delivery moments chosen by the scheduler",
@@ -53,7 +53,7 @@ claim("C19", "exploration", SIM + "; event-source device completing driver-stock
       "OwningQueue (several shapes, handler succeeding/declining/failing, lying lengths), VirtIOInput and sound notifications: exactly-once in-order delivery with exact bytes, same token and same driver buffer re-posted (ledger identity), stock level after every poll, no delivery beyond the buffer.",
       "Sampling; vsock receive path covered by C17/C18.", "6/C19")
 claim("C20", "exploration", SIM + "; reference GPU/sound/entropy/RTC/9P devices decoding every chain, error-response fault batches",
-      "Reference devices decode each command against structures transcribed from the specification (field positions, sizes, reserved fields, command order, backing pinned while attached, PCM chunking/ordering); success and error-response batches are separate; returned values compared with what the device reported, EDID via an independent decoder.",
+      "Reference devices decode each command against structures transcribed from the specification (field positions, sizes, reserved fields, command order, backing pinned while attached, PCM chunking/ordering); success and error-response batches are separate; returned values compared with what the device reported, EDID via an independent decoder; 9P mount tag under a device that changes its configuration during construction.",
       "Resolutions bounded; after a device error the run ends; sampling.", "6/C20")
 
 claim("C08", "exploration", SIM + "; ordered seam log of construction for every driver x transport kind, reference devices judging behaviour under the negotiated features",
